@@ -335,31 +335,31 @@ func c11ScanLists(p *Prog, fn *ssa.Function, tf *Termer, lk *c11Lookup, l *Loop,
 			}
 		}
 	}
-	absent := func(b *ssa.BasicBlock) bool {
+	absent := func(gs []Guard) bool {
 		if lk == nil {
 			return false
 		}
-		for _, g := range Guards(b) {
+		for _, g := range gs {
 			if lk.absent(g) {
 				return true
 			}
 		}
 		return false
 	}
-	// the list that was filled is what is returned
-	for _, b := range fn.Blocks {
-		ret, ok := b.Instrs[len(b.Instrs)-1].(*ssa.Return)
-		if !ok || len(ret.Results) == 0 || absent(b) {
+	// the list that was filled is what is returned (results: robust_c11.go, c11Results)
+	for _, res := range c11Results(fn, 0) {
+		if absent(res.conds) {
 			continue
 		}
 		for _, c := range carriers {
-			if !c11FlowsFrom(ret.Results[0], c) {
-				return "the list the links are collected in is not what is returned at " + p.Pos(ret.Pos()), nil
+			if !c11FlowsFrom(res.v, c) {
+				return "the list the links are collected in is not what is returned at " + p.Pos(res.ret.Pos()), nil
 			}
 		}
 	}
+	resTarget, resEdge := c11ResultTargets(absent)
 	w := FindPath(p, PathQuery{Fn: fn, Explored: explored,
-		Target: func(in ssa.Instruction) bool { return IsReturn(in) && !absent(in.Block()) },
+		Target: resTarget, TargetEdge: resEdge,
 		AvoidEdge: func(from, to *ssa.BasicBlock) bool {
 			if from == test && !l.Blocks[to] {
 				return true
